@@ -40,7 +40,7 @@ def host_entry(g, variant, gid=None):
     return Entry(gid, g, 'host%d' % variant, hg.tla_json(), hg.desc_text())
 
 
-def gen_entry(g, gid=None, dflt=(), limits=None, ctx=(), postprec=(), defines=(), noval=(), nvterms=(), tkinds=None, alt_nts=(), ctxref=False):
+def gen_entry(g, gid=None, dflt=(), limits=None, ctx=(), postprec=(), defines=(), noval=(), nvterms=(), tkinds=None, alt_nts=(), ctxref=False, reattach=False):
     gid = gid or ('%s@gen' % g.name)
     e = Entry(gid, g, 'gen', gen_tu.tla_json(g, gid, dflt, ctx, noval, nvterms, tkinds))
     e.tkinds = dict(tkinds or {})
@@ -50,6 +50,7 @@ def gen_entry(g, gid=None, dflt=(), limits=None, ctx=(), postprec=(), defines=()
     e.dflt = tuple(dflt)
     e.ctx = tuple(ctx)
     e.ctxref = ctxref
+    e.reattach = reattach
     e.postprec = tuple(postprec)
     e.defines = tuple(defines)
     e.limits = limits
@@ -119,7 +120,7 @@ def run_harness(entries, workname, env=None):
     for e in gens:
         src = os.path.join(work, e.gid.replace('@', '_').replace('/', '_') + '.cpp')
         with open(src, 'w') as f:
-            f.write(gen_tu.clex_tu(e.g, e.gid) if getattr(e, 'clex', False) else gen_tu.lex_tu(e.gid, e.lexterms, getattr(e, 'lexshape', 'list')) if hasattr(e, 'lexterms') else gen_tu.tu_source(e.g, e.gid, getattr(e, 'dflt', ()), getattr(e, 'limits', None), getattr(e, 'ctx', ()), getattr(e, 'postprec', ()), getattr(e, 'defines', ()), getattr(e, 'noval', ()), getattr(e, 'nvterms', ()), getattr(e, 'tkinds', None), getattr(e, 'alt_nts', ()), getattr(e, 'ctxref', False)))
+            f.write(gen_tu.clex_tu(e.g, e.gid) if getattr(e, 'clex', False) else gen_tu.lex_tu(e.gid, e.lexterms, getattr(e, 'lexshape', 'list')) if hasattr(e, 'lexterms') else gen_tu.tu_source(e.g, e.gid, getattr(e, 'dflt', ()), getattr(e, 'limits', None), getattr(e, 'ctx', ()), getattr(e, 'postprec', ()), getattr(e, 'defines', ()), getattr(e, 'noval', ()), getattr(e, 'nvterms', ()), getattr(e, 'tkinds', None), getattr(e, 'alt_nts', ()), getattr(e, 'ctxref', False), getattr(e, 'reattach', False)))
         specs.append(('gen_' + e.gid.replace('@', '_'), src, ()))
     gbins = vlib.build_many(specs) if specs else {}
     runs = []
